@@ -5,7 +5,7 @@ use crate::Xtea;
 use cipher::{BlockCipherDecrypt, BlockCipherEncrypt, KeyInit};
 use refmodels::xtea as r;
 
-//@ harness name=xtea_conf_enc prop=C09,C20 tier=quick bits=192 est=55 desc="D: Xtea::new_from_slice(key).encrypt_block(b) == oracle 32-cycle XTEA encipher over LE words, all 2^128 keys, all 2^64 blocks; no panic/overflow"
+//@ harness name=xtea_conf_enc prop=C09,C20 tier=quick bits=192 est=60 desc="D: Xtea::new_from_slice(key).encrypt_block(b) == oracle 32-cycle XTEA encipher over LE words, all 2^128 keys, all 2^64 blocks; no panic/overflow"
 verif_harness! {
     name: xtea_conf_enc,
     bytes: 24,
